@@ -6,9 +6,9 @@ import math
 
 from . import c08_lib as L
 
-RULE = ('operation histories over 1-4 simulated worker processes (values.MultiProcessValue(lambda: pid), pids with shared '
+RULE = ('operation histories over 1-4 simulated worker processes (values.MultiProcessValue(lambda: pid), numeric pids with shared '
         'decimal prefixes 1/11/12/2), counters, summaries, histograms (two bucket layouts per name) and 2-4 gauges drawn from '
-        'the 10 multiprocess modes, labelled and unlabelled, children created in some workers only, exact dyadic amounts with '
+        'the 10 multiprocess modes, numeric and NON-numeric process identifiers (hex ids ending in b/d, ids with dots), labelled and unlabelled, children created in some workers only, exact dyadic amounts with '
         'ties/negatives/-0.0 plus a NaN/Inf stream, scripted set-times with ties, mark_process_dead and pid reuse at arbitrary '
         'points, collect() and merge(permuted file list) at arbitrary points; non-trivial = at least two pids wrote files and '
         'at least one collection saw a gauge or histogram series; distinct by history')
@@ -29,7 +29,9 @@ ASSUMPTIONS = ['one multiprocess mode, one type and one help text per metric nam
 import os as _os
 TIME_BUDGET = {'quick': int(_os.environ.get('C08_BUDGET', '75')), 'thorough': int(_os.environ.get('C08_TBUDGET', '900'))}
 
-PIDS = [1, 11, 12, 2, 21, 7]
+# numeric pids with shared decimal prefixes and non-numeric worker ids (process_identifier may return any string usable in
+# a file name): hex ids ending in b / d, ids containing '.', ids that are suffixes of one another
+PIDS = [1, 11, 12, 2, 21, 7, 'c0ffee0b', 'c0ffee0d', 'c0ffee0', 'w.d', 'db', 'b', '1d', 'bd.']
 LVS = ['x', 'y', '', 'x_y', 'é"\\']
 EXACT = [0.0, 1.0, 1.0, 2.0, 0.5, 0.25, 3.0, 7.5, 100.0, 1048576.0, 0.125]
 GVALS = EXACT + [-1.0, -1.0, -0.0, -2.5, -100.0, 5.0, 5.0]
